@@ -6,6 +6,7 @@
     regime   <code>
     addon    <key>
     combo    <docRegime> <cat> <country> <rate>
+    includes <docRegime> <cat>                           `tax.prices_include`
     ext      <key> <value> <pattern> <matched 0|1>     pattern as the harness read it from data/**;
                                                         matched = Go regexp verdict for that pattern
     tag      <docRegime> <schema> <tag> <n> <addon>*n
@@ -32,6 +33,8 @@ def handle (toks : List String) : String :=
   | [some "combo", some docRegime, some cat, some country, some rate] =>
     let c : Combo := ⟨cat, country, rate, []⟩
     ans (comboResolvesB defs docRegime c) (validateCombo defs (fun _ _ => true) (defs.regimeFor docRegime) c)
+  | [some "includes", some docRegime, some cat] =>
+    ans (includesResolvesB defs docRegime cat) (validatePricesInclude (defs.regimeFor docRegime) cat)
   | [some "ext", some key, some value, some pattern, some matched] =>
     match defs.extDef key with
     | none => ans false false
@@ -42,7 +45,7 @@ def handle (toks : List String) : String :=
   | some "tag" :: some docRegime :: some schema :: some tag :: some _n :: addons =>
     let as := addons.filterMap fun a => a.bind defs.addonFor
     let r := defs.regimeFor docRegime
-    ans (tagResolvesB r as schema tag) (validateTags r as schema [tag])
+    ans (tagResolvesB r as schema tag) (validateDocTags r as schema [tag])
   | [some "currency", some code] => ans (defs.currencies.contains code) (validateCodes defs [code] [])
   | [some "country", some code] => ans (defs.countries.contains code) (validateCodes defs [] [code])
   | _ => "bad-request"
